@@ -3,6 +3,7 @@ import FqModel.Bits
 import FqModel.Codec
 import FqModel.C14Hash
 import FqModel.C14Json
+import FqModel.C14Xml
 /-!
   driver for C14.  Case lines (everything binary/text is lower-case hex, `-` = empty):
 
@@ -172,12 +173,128 @@ def stepRadix (dir : String) (args : List String) (obs : String) : String :=
     | _, _ => "BADOP args"
   | _, _ => "BADOP radix-op"
 
+/-! URL query objects on the wire: `{s<hex>:s<hex>,s<hex>:[s<hex>,s<hex>]}` (keys sorted; a key with
+    one value is a string, with several an array) -/
+
+def showQS (b : Bytes) : String := "s" ++ hx b
+
+def showQuery (q : QueryVals) : String :=
+  "{" ++ ",".intercalate (q.map (fun kv =>
+    showQS kv.1 ++ ":" ++ (match kv.2 with
+      | [v] => showQS v
+      | vs => "[" ++ ",".intercalate (vs.map showQS) ++ "]"))) ++ "}"
+
+def parseQS (s : String) : Option Bytes :=
+  if s.startsWith "s" then bytesOfHex (s.drop 1).toString else none
+
+/-- split a member list at top-level commas (arrays are one level deep) -/
+def splitTop (cs : List Char) : List String :=
+  let rec go : List Char → Nat → List Char → List String → List String
+    | [], _, cur, acc => (String.ofList cur.reverse :: acc).reverse
+    | c :: r, depth, cur, acc =>
+      if c == '[' then go r (depth + 1) (c :: cur) acc
+      else if c == ']' then go r (depth - 1) (c :: cur) acc
+      else if c == ',' && depth == 0 then go r depth [] (String.ofList cur.reverse :: acc)
+      else go r depth (c :: cur) acc
+  go cs 0 [] []
+
+def parseQueryWire (s : String) : Option QueryVals :=
+  if !(s.startsWith "{" && s.endsWith "}") then none else
+  let inner := ((s.drop 1).dropEnd 1).toString
+  if inner.isEmpty then some [] else
+  (splitTop inner.toList).mapM (fun m =>
+    match m.splitOn ":" with
+    | [k, v] => do
+      let k ← parseQS k
+      if v.startsWith "[" && v.endsWith "]" then
+        let vs ← (((v.drop 1).dropEnd 1).toString.splitOn ",").mapM parseQS
+        pure (k, vs)
+      else
+        let v ← parseQS v
+        pure (k, [v])
+    | _ => none)
+
+def showOQ (o : Option QueryVals) : String := match o with | some q => showQuery q | none => "err"
+
+def stepUrlQuery (dir input obs : String) : String :=
+  match dir with
+  | "rt" =>
+    match parseQueryWire input with
+    | none => "BADOP urlquery-input"
+    | some q =>
+      let mText := encodeQuery q
+      match words obs with
+      | ["err"] => mkVerdict (some "to_urlquery-error-in-domain") (some (hx mText))
+      | [t, d] =>
+        match parseO t with
+        | some (some implText) =>
+          let mDec := showOQ (parseQuery implText)
+          let pf := if d != showQuery q then some s!"roundtrip from_urlquery(to_urlquery(x))={d}" else none
+          let dv := if implText != mText || d != mDec then some s!"{hx mText} {mDec}" else none
+          mkVerdict pf dv
+        | _ => "BADOP obs"
+      | _ => "BADOP obs"
+  | "dec" =>
+    match bytesOfHex input with
+    | none => "BADOP input"
+    | some t =>
+      let m := showOQ (parseQuery t)
+      if obs == m then "OK"
+      else if m == "err" then mkVerdict (some "malformed-input-accepted") (some "err")
+      else if obs == "err" then mkVerdict none (some m)
+      else mkVerdict (some "wrong-value") (some m)
+  | _ => "BADOP urlquery-op"
+
+/-! XML -/
+open FqModel.Json FqModel.Xml in
+def stepXmlArr (input obs : String) : String :=
+  match unwireAll input with
+  | none => "BADOP xml-input"
+  | some t =>
+    match fromArr t with
+    | none => if obs == "err" then "OK" else mkVerdict (some "to_xml-accepted-nameless-element") (some "err")
+    | some n =>
+      if !safeNode n then "BADOP xml-unsafe-name" else
+      let m := String.ofList (wire (toArr (cleanNode n)))
+      let canonical := (toArr n == t) && (cleanNode n == n)
+      let pf := if canonical && obs != String.ofList (wire t) then some s!"roundtrip from_xml(to_xml(x))={obs}" else none
+      let dv := if obs != m then some m else none
+      mkVerdict pf dv
+
+open FqModel.Xml in
+/-- `xmlseq rt a,b,a`: children names of `<r>`, child i has text i.
+    obs = `<groups> <order>`: groups `name:seq/text;seq/text|name:…` (seq `-` when absent) as
+    from_xml({seq:true}) shows them, order `name/text,…` after `| to_xml | from_xml({array:true})` -/
+def stepXmlSeq (input obs : String) : String :=
+  let names := if input == "-" then [] else input.splitOn ","
+  let cs : List (List Char × Nat) := (names.zipIdx).map (fun p => (p.1.toList, p.2))
+  let single := cs.length == 1
+  let groups := groupChildren cs
+  let showG := if groups.isEmpty then "-" else "|".intercalate (groups.map (fun kv =>
+    String.ofList kv.1 ++ ":" ++ ";".intercalate (kv.2.map (fun sv =>
+      (if single then "-" else toString sv.1) ++ "/" ++ toString sv.2))))
+  let showOrder := fun (l : List (List Char × Nat)) =>
+    if l.isEmpty then "-" else ",".intercalate (l.map (fun p => String.ofList p.1 ++ "/" ++ toString p.2))
+  let m := showG ++ " " ++ showOrder (seqRoundTrip cs)
+  match words obs with
+  | [_, o] =>
+    let pf := if o != showOrder cs then some s!"element-order-lost {o}" else none
+    let dv := if obs != m then some m else none
+    mkVerdict pf dv
+  | ["err"] => mkVerdict (some "xml-seq-error") (some m)
+  | _ => "BADOP obs"
+
 def hashFn (name : String) : Option (Bytes → Bytes) :=
   match name with
   | "md5" => some Hash.md5
   | "sha1" => some Hash.sha1
   | "sha256" => some Hash.sha256
   | "sha512" => some Hash.sha512
+  | "md4" => some Hash.md4
+  | "sha3_224" => some Hash.sha3_224
+  | "sha3_256" => some Hash.sha3_256
+  | "sha3_384" => some Hash.sha3_384
+  | "sha3_512" => some Hash.sha3_512
   | _ => none
 
 open FqModel.Json in
@@ -188,13 +305,13 @@ def showPR (p : PR JV) : String :=
   | .unmodelled => "unmodelled"
 
 open FqModel.Json in
-def stepJson (jq : Bool) (dir input obs : String) : String :=
+def stepJson (jq : Bool) (ind : Nat) (dir input obs : String) : String :=
   match dir with
   | "rt" =>
     match unwireAll input with
     | none => "BADOP json-input"
     | some v =>
-      let mText := bytesOfChars (encode jq v)
+      let mText := bytesOfChars (encodeI jq ind 0 v)
       match words obs with
       | ["err"] => mkVerdict (some "tojson-error-in-domain") (some (hx mText))
       | [t, d] =>
@@ -242,8 +359,15 @@ def stepC14 (op obs : String) : String :=
   if (obs.splitOn "timeout").length > 1 then "PROPFAIL does-not-terminate" else
   match words op with
   | "radix" :: dir :: args => stepRadix dir args obs
-  | ["json", dir, input] => stepJson false dir input obs
-  | ["jqlit", dir, input] => stepJson true dir input obs
+  | ["urlquery", dir, input] => stepUrlQuery dir input obs
+  | ["xmlarr", "rt", input] => stepXmlArr input obs
+  | ["xmlseq", "rt", input] => stepXmlSeq input obs
+  | ["json", dir, input] => stepJson false 0 dir input obs
+  | ["jqlit", dir, input] => stepJson true 0 dir input obs
+  | ["jsonind", "rt", n, input] =>
+    (match n.toNat? with | some n => stepJson false n "rt" input obs | none => "BADOP indent")
+  | ["jqlitind", "rt", n, input] =>
+    (match n.toNat? with | some n => stepJson true n "rt" input obs | none => "BADOP indent")
   | [h, "hash", input] =>
     match hashFn h, parseBin input with
     | some f, some bits =>
